@@ -39,6 +39,7 @@ import (
 	"github.com/idena-network/idena-go/core/validators"
 	"github.com/idena-network/idena-go/crypto"
 	"github.com/idena-network/idena-go/pengings"
+	"github.com/idena-network/idena-go/stats/collector"
 
 	"verifh/internal/sim"
 	"verifh/internal/tr"
@@ -69,6 +70,7 @@ type scenario struct {
 type node struct {
 	key   int
 	n     *sim.Node
+	props *pengings.Proposals
 	votes *pengings.Votes
 	vc    *ceremony.ValidationCeremony
 }
@@ -97,7 +99,7 @@ type world struct {
 
 type runStats struct {
 	worlds, blocks, proposes, commits, penalties, switches, refusedOffers, forced, crafted, epochs, restarts, txs int
-	gap                                                                                                           int
+	gap, full                                                                                                     int
 }
 
 func (w *world) now() int64 { return w.w.Clock.Ticks() }
@@ -163,6 +165,7 @@ func (w *world) boot(key int, old *node) *node {
 	}
 	nd := &node{key: key, n: n}
 	n.Offline.Start(n.Chain.Head)
+	nd.props, _ = pengings.NewProposals(n.Chain, n.App, n.Offline, n.Upgrader, collector.NewStatsCollector())
 	nd.votes = pengings.NewVotes(n.App, n.Bus, n.Offline, n.Upgrader)
 	nd.votes.Initialize(n.Chain.Head)
 	nd.vc = ceremony.VerifNewCeremony(n.App, n.Bus, n.Sec, n.DB, n.Pool, n.Chain, n.Cfg)
@@ -566,7 +569,18 @@ func (w *world) round(st step) {
 	p := st.P
 	el := w.eligible()
 	if p == -1 && len(el) > 0 {
-		p = el[w.rnd.Intn(len(el))]
+		// prefer a proposer whose sortition is valid: its proposal can then go through the validators' whole proposal path
+		var lucky []int
+		for _, k := range el {
+			if ok, _ := w.byKey[k].n.Chain.GetProposerSortition(); ok {
+				lucky = append(lucky, k)
+			}
+		}
+		if len(lucky) > 0 && w.rnd.Intn(5) != 0 {
+			p = lucky[w.rnd.Intn(len(lucky))]
+		} else {
+			p = el[w.rnd.Intn(len(el))]
+		}
 	}
 	if p >= 0 && !has(el, p) {
 		p = -2
@@ -606,6 +620,10 @@ func (w *world) round(st step) {
 	if p >= 0 {
 		pn := w.byKey[p]
 		det = w.detSnap(pn, refHead.Hash())
+		sortOk, proof := pn.n.Chain.GetProposerSortition()
+		if !sortOk {
+			proof = []byte{}
+		}
 		if len(st.Craft) == 2 {
 			honest = false
 			w.stats.crafted++
@@ -631,7 +649,7 @@ func (w *world) round(st step) {
 			}
 			blk = b
 		} else {
-			blk = pn.n.Chain.ProposeBlock([]byte{}).Block
+			blk = pn.n.Chain.ProposeBlock(proof).Block
 		}
 		data := sim.Encode(blk)
 		// judgement by every awake node, on both paths
@@ -659,7 +677,23 @@ func (w *world) round(st step) {
 				chainErr = fmt.Errorf("%s", chainMsg)
 			}
 			tov := w.detSnap(nd, refHead.Hash())["tov"]
-			verd = append(verd, []interface{}{nd.key, d, c, tov, nd.n.App.ValidatorsCache.OnlineSize()})
+			// the validators' whole proposal path (pengings.Proposals.AddProposedBlock: proof, header, detector, upgrader), when the
+			// proposer's sortition is valid: -1 = not applicable
+			full, fullMsg := -1, ""
+			if sortOk {
+				full, fullMsg = judge(func() error {
+					added, pending := nd.props.AddProposedBlock(&types.BlockProposal{Block: sim.Decode(data), Proof: proof}, "", w.w.Clock.Now())
+					if !added {
+						return fmt.Errorf("not added (pending %v)", pending)
+					}
+					return nil
+				})
+				w.stats.full++
+			}
+			verd = append(verd, []interface{}{nd.key, d, c, tov, nd.n.App.ValidatorsCache.OnlineSize(), full})
+			if full == 2 && !hasStr(msgs, "proposals: "+fullMsg) {
+				msgs = append(msgs, "proposals: "+fullMsg)
+			}
 			if detMsg != "" && !hasStr(msgs, "det: "+detMsg) {
 				msgs = append(msgs, "det: "+detMsg)
 			}
@@ -1179,6 +1213,6 @@ func main() {
 		wd.randomRun(*rlen)
 	}
 	sim.Cleanup()
-	fmt.Fprintf(os.Stdout, "worlds=%d blocks=%d proposes=%d commits=%d penalties=%d switches=%d refused=%d forced=%d crafted=%d epochs=%d restarts=%d txs=%d gap=%d thr=%d\n",
-		st.worlds, st.blocks, st.proposes, st.commits, st.penalties, st.switches, st.refusedOffers, st.forced, st.crafted, st.epochs, st.restarts, st.txs, st.gap, nthr)
+	fmt.Fprintf(os.Stdout, "worlds=%d blocks=%d proposes=%d commits=%d penalties=%d switches=%d refused=%d forced=%d crafted=%d epochs=%d restarts=%d txs=%d gap=%d thr=%d full=%d\n",
+		st.worlds, st.blocks, st.proposes, st.commits, st.penalties, st.switches, st.refusedOffers, st.forced, st.crafted, st.epochs, st.restarts, st.txs, st.gap, nthr, st.full)
 }
